@@ -26,6 +26,7 @@
    validate_nocond_refuted below.  What holds instead is the exact characterisation
    validate_write_exact, hence the _partial statement and the completeness direction. *)
 From OFGA Require Import Sem.ValidWrite Sem.ValidProofs.
+From Coq Require Import Permutation.
 Open Scope N_scope.
 
 (* ================================================================== *)
@@ -261,6 +262,28 @@ Example invalid_tuple_any_position_ex :
   w_result (write_cmd Witness.we Witness.wm Witness.wcds 64 10 OError OError Witness.st0 []
               [Witness.w_ok; Witness.w_self]) = WValidation.
 Proof. vm_compute. split; reflexivity. Qed.
+
+(* the per-tuple stage of a request passes iff EVERY tuple passes on its own (and every delete names
+   a valid user): a conjunction, hence independent of the order and of what else is in the request *)
+Theorem batch_validity_is_conjunction : forall (e : env) (m : model) (cds : cdefs) (limit maxw : N)
+  (deletes : list skey) (writes : list rtuple),
+  (deletes <> [] \/ writes <> []) ->
+  (tuples_pass e m cds limit deletes writes = false <->
+   fst (validate_request e m cds limit maxw deletes writes) = WValidation).
+Proof. exact ValidProofs.batch_validity_is_conjunction. Qed.
+Print Assumptions batch_validity_is_conjunction.
+Example batch_validity_is_conjunction_ex :
+  tuples_pass Witness.we Witness.wm Witness.wcds 64 [] [Witness.w_ok; Witness.w_ts] = false /\
+  tuples_pass Witness.we Witness.wm Witness.wcds 64 [] [Witness.w_ts; Witness.w_ok] = false /\
+  tuples_pass Witness.we Witness.wm Witness.wcds 64 [] [Witness.w_ok; Witness.w_f4] = true.
+Proof. vm_compute. repeat split. Qed.
+
+Theorem batch_validity_order_free : forall (e : env) (m : model) (cds : cdefs) (limit : N)
+  (deletes deletes' : list skey) (writes writes' : list rtuple),
+  Permutation.Permutation writes writes' -> Permutation.Permutation deletes deletes' ->
+  tuples_pass e m cds limit deletes writes = tuples_pass e m cds limit deletes' writes'.
+Proof. exact ValidProofs.batch_validity_order_free. Qed.
+Print Assumptions batch_validity_order_free.
 
 (* ================================================================== *)
 (* D. Contextual tuples                                                 *)
